@@ -618,7 +618,7 @@ class WaitNoEchoLoop(LoopSpec):
     def invariant(self, v):
         out = [('clock-forward', v.g['clk'] >= v.g0['clk']), ('checks-counted', v.g['echo_checks'] >= v.g0['echo_checks'])]
         T0 = eff_timeout(v)
-        if T0 is not None and v.l.has('end_time'):
+        if T0 is not None:      # (end_time is bound exactly when there is a timeout; a missing local makes the contract inapplicable)
             rem = v.l.end_time - v.g['clk']
             out.append(('remaining-time', And(eq(v.l.end_time, v.g0['clk'] + T0), rem <= v.l.timeout, v.l.timeout <= rem + 0.1,
                                               v.g['clk'] - v.g0['clk'] <= smax(T0, 0) + 0.2)))
@@ -712,10 +712,7 @@ def popen_inv(sp, g):
 class PopenReadLoop(LoopSpec):
     def vars(self, v):
         k = 'b' if v.old.self.encoding is None else 's'
-        d = {'buf': TStr(k), 'incoming': TOpt(T.Bytes)}
-        if v.l.has('polled'):
-            d['polled'] = T.Bool
-        return d
+        return {'buf': TStr(k), 'incoming': TOpt(T.Bytes), 'polled': T.Bool}
 
     def ghost(self, v):
         k = 'b' if v.old.self.encoding is None else 's'
@@ -732,8 +729,7 @@ class PopenReadLoop(LoopSpec):
                ('no-time-passes', eq(v.g['clk'], v.g0['clk'])),
                ('collected', eq(v.l.buf, cat(sp._buf, text_delivered(v, sp)))),
                ('sentinel-not-seen-yet', And(Not(v.l.self._read_reached_eof), Not(sp._read_reached_eof)))]
-        if v.l.has('polled'):
-            out.append(('polled-means-the-queue-was-looked-at', Implies(v.l.polled, length(v.g['rawin']) > length(v.g0['rawin']))))
+        out.append(('polled-means-the-queue-was-looked-at', Implies(v.l.polled, length(v.g['rawin']) > length(v.g0['rawin']))))
         if sp.encoding is not None:
             out += [('decoder-fed-in-order', And(prefix_of(v.g0['dec_in'], v.g['dec_in']), prefix_of(v.g0['dec_out'], v.g['dec_out']),
                                                  eq(sub(v.g['dec_in'], length(v.g0['dec_in']), length(v.g['dec_in'])), delivered(v))))]
